@@ -631,28 +631,31 @@ def align_wcs(wcscat, refcat=None, ref_tpwcs=None, enforce_user_order=True,
     for wcat in wcs_im_cats:
         grouped_images[wcat.group_id].append(wcat)
 
-    # create WCSImageCatalog and WCSGroupCatalog:
+    # create WCSImageCatalog and WCSGroupCatalog (in the order in which the
+    # first member of each group appears in the input list; each ungrouped
+    # image is a group of its own):
     wcs_gcat = []
-    for group_id, wcatalogs in grouped_images.items():
+    for wcat in wcs_im_cats:
+        group_id = wcat.group_id
         if group_id is None:
-            for wcat in wcatalogs:
-                if not len(wcat.catalog):
-                    log.warning("Image '{}' will not be aligned: empty "
-                                "source catalog".format(wcat.name))
-                    wcat.corrector.meta['fit_info'] = {
-                        'status': 'FAILED: empty source catalog'
-                    }
-                    continue
+            if not len(wcat.catalog):
+                log.warning("Image '{}' will not be aligned: empty "
+                            "source catalog".format(wcat.name))
+                wcat.corrector.meta['fit_info'] = {
+                    'status': 'FAILED: empty source catalog'
+                }
+                continue
 
-                wcs_gcat.append(
-                    WCSGroupCatalog(
-                        wcat,
-                        name='GROUP ID: None',
-                        bb_policy=group_bb_policy
-                    )
+            wcs_gcat.append(
+                WCSGroupCatalog(
+                    wcat,
+                    name='GROUP ID: None',
+                    bb_policy=group_bb_policy
                 )
+            )
 
-        else:
+        elif group_id in grouped_images:
+            wcatalogs = grouped_images.pop(group_id)
             gcat = WCSGroupCatalog(
                 wcatalogs,
                 name='GROUP ID: {}'.format(group_id),
